@@ -21,6 +21,13 @@ CHECKS = {
         technique=MC_TECH + " (all inheritance chains up to the stated bounds x probe set, differential against a reference object model)",
         design="DESIGN.md §4 C02",
     ),
+    "C03": dict(
+        category="exploration",
+        text="Every program of the whole-grammar generator (<= k constructs) with every sub-expression wrapped in a uniquely labelled std.trace, a family of ~220 sharing/unneeded-position shapes (locals, arguments, defaults, array elements, object fields via obj/self/super, object locals shared between objects and layer positions, closures over comprehension variables, results of std natives) with error and runaway-recursion bombs, and every 2-layer inheritance chain with traced members: the implementation's multiset of trace events must not exceed the reference interpreter's (unneeded => 0, shared => 1) and verdicts must agree.",
+        note="Trusted: the reference interpreter's memoisation granularity (exactly the one the property grants); the count oracle is applied only when the reference verdict is a value.",
+        technique=MC_TECH + " (all instrumented programs up to k constructs + sharing shapes, trace-event multiset compared with a call-by-need reference interpreter)",
+        design="DESIGN.md §4 C03",
+    ),
     "C04": dict(
         category="model_checking",
         text="Bounded exhaustive exploration on the real code: every std function x every boundary argument tuple, every short token/character sequence through all three parsers and the evaluator, every recursion depth across the frame limit, every 3-node dependency digraph, and an explicit-state exploration of all evaluation histories (12-op alphabet) on one thread/State with probes after every transition; workers are isolated processes so aborts and native stack overflows are attributed to the journalled case.",
